@@ -97,9 +97,42 @@ def jobs(tier, seed):
         for epochs in ((1, 2, -1) if tier == "quick" else (1, 2, 3, -1)):
             for ncb in (1, 2):
                 js.append({"id": f"sched-n{n}-e{epochs}-cb{ncb}", "kind": "sched", "n": n, "epochs": epochs, "ncb": ncb})
+    for n in ns[:2] if tier == "quick" else ns:
+        for prior in ("warm", "cold"):
+            js.append({"id": f"sched-n{n}-e2-cb1-prior{prior}", "kind": "sched", "n": n, "epochs": 2, "ncb": 1, "prior": prior})
     for enc in ("bin-int", "bin-str", "multi", "multi-str", "reg"):
         js.append({"id": f"predict-{enc}", "kind": "predict", "enc": enc})
     return js
+
+
+def _configured(job, Eng, bs, epochs, mi, callbacks, old_calls, data):
+    """the estimator under test, configured in the constructor, through set_params, or - 'prior' jobs - an estimator that was already fitted
+    once under ANOTHER configuration (own callback, batch_size 1, one epoch; warm_start on or off) and then re-configured through set_params"""
+    from fairlearn.adversarial import AdversarialFairnessClassifier
+
+    n, ncb = job["n"], job["ncb"]
+    cb_param = callbacks if ncb > 1 else callbacks[0]
+    prior = job.get("prior")
+    if prior:
+        def old_cb(est, step, **kw):
+            old_calls.append(step)
+            return False
+
+        est = AdversarialFairnessClassifier(backend=Eng, predictor_model=[], adversary_model=[], batch_size=1, epochs=1, callbacks=old_cb, shuffle=False,
+                                            random_state=0, warm_start=(prior == "warm"))
+        X, y, A = data
+        est.fit(X, y, sensitive_features=A)
+        del LOG[:]
+        del old_calls[:]
+        est.set_params(batch_size=bs, epochs=epochs, callbacks=cb_param)
+    elif n % 2:
+        est = AdversarialFairnessClassifier(backend=Eng, predictor_model=[], adversary_model=[], batch_size=bs, epochs=epochs,
+                                            callbacks=cb_param, shuffle=False, random_state=0)
+    else:  # configured through set_params after construction
+        est = AdversarialFairnessClassifier(backend=Eng, predictor_model=[], adversary_model=[], shuffle=False, random_state=0)
+        est.set_params(batch_size=bs, epochs=epochs, callbacks=cb_param)
+    est.max_iter = mi  # not a constructor argument of the public classes: set like a parameter (set_params is not available for it)
+    return est
 
 
 def _data(n):
@@ -137,6 +170,7 @@ def _sched(acc, job, deadline):
             c.assume(mi.e >= 1)
             c.assume(mi.e <= 2 * n + 1)  # epochs=-1: the number of epochs is ceil(max_iter/batches); bounded here, stated in the evidence
         cbs = []
+        old_calls = []
 
         def mk(k):
             def cb(est, step, **kw):
@@ -145,13 +179,7 @@ def _sched(acc, job, deadline):
             return cb
 
         callbacks = [mk(k) for k in range(ncb)]
-        if n % 2:
-            est = AdversarialFairnessClassifier(backend=Eng, predictor_model=[], adversary_model=[], batch_size=bs, epochs=epochs,
-                                                callbacks=callbacks if ncb > 1 else callbacks[0], shuffle=False, random_state=0)
-        else:  # configured through set_params after construction
-            est = AdversarialFairnessClassifier(backend=Eng, predictor_model=[], adversary_model=[], shuffle=False, random_state=0)
-            est.set_params(batch_size=bs, epochs=epochs, callbacks=callbacks if ncb > 1 else callbacks[0])
-        est.max_iter = mi  # not a constructor argument of the public classes: set like a parameter (set_params is not available for it)
+        est = _configured(job, Eng, bs, epochs, mi, callbacks, old_calls, (X, y, A))
         try:
             ret = est.fit(X, y, sensitive_features=A)
         except Exception as e:
@@ -172,13 +200,13 @@ def _sched(acc, job, deadline):
                 pf = [e for e in LOG if e[0] == "step"]
             except Exception as e:
                 pf = e
-        return bs, mi, stop, steps, list(cbs), est.n_iter_, ret is est, pf
+        return bs, mi, stop, steps, list(cbs), est.n_iter_, ret is est, pf, list(old_calls)
 
     def on_ok(ctx, out):
         if isinstance(out, Exception):
             acc.exception_cex(ctx, out, signature=f"sched:exception:{type(out).__name__}")
             return
-        bs, mi, stop, steps, cbs, n_iter, ret_self, pf = out
+        bs, mi, stop, steps, cbs, n_iter, ret_self, pf, old_calls = out
         acc.reach(ctx)
         b = z3.If(bs.e == -1, z3.IntVal(n), bs.e)
         # B = ceil(n / b) for b >= 1: the unique k in 1..n with (k-1)*b < n <= k*b
@@ -215,6 +243,8 @@ def _sched(acc, job, deadline):
         shape_ok = all(per_cb[k] == list(range(1, len(per_cb[k]) + 1)) for k in range(ncb)) and len(set(len(v) for v in per_cb.values())) == 1
         items.append(("callbacks_see_steps_1_2_3_once_each", z3.BoolVal(bool(shape_ok)), "sched:callbacks:steps"))
         items.append(("no_callback_after_max_iter_exhausted", C == len(per_cb[0]), "sched:callbacks:count"))
+        if job.get("prior"):
+            items.append(("callback_replaced_through_set_params_is_not_invoked_any_more", z3.BoolVal(not old_calls), "sched:callbacks:stale", {"old_callback_calls": old_calls[:6]}))
         if pf is not None:
             same = (not isinstance(pf, Exception)) and [e[1:] for e in pf] == [e[1:] for e in steps]
             items.append(("partial_fit_sequence_feeds_identical_batches", z3.BoolVal(bool(same)), "sched:partial_fit", {"pf": repr(pf)[:200]}))
@@ -304,6 +334,7 @@ def replay(cex):
         bs, mi, stop = int(F(mdl.get("bs", "-1"))), int(F(mdl.get("mi", "-1"))), int(F(mdl.get("stop", "1000000")))
         del LOG[:]
         cbs = []
+        old_calls = []
 
         def mk(k):
             def cb(est, step, **kw):
@@ -312,13 +343,7 @@ def replay(cex):
             return cb
 
         callbacks = [mk(k) for k in range(ncb)]
-        if n % 2:
-            est = AdversarialFairnessClassifier(backend=Eng, predictor_model=[], adversary_model=[], batch_size=bs, epochs=epochs,
-                                                callbacks=callbacks if ncb > 1 else callbacks[0], shuffle=False, random_state=0)
-        else:  # configured through set_params after construction
-            est = AdversarialFairnessClassifier(backend=Eng, predictor_model=[], adversary_model=[], shuffle=False, random_state=0)
-            est.set_params(batch_size=bs, epochs=epochs, callbacks=callbacks if ncb > 1 else callbacks[0])
-        est.max_iter = mi  # not a constructor argument of the public classes: set like a parameter (set_params is not available for it)
+        est = _configured(job, Eng, bs, epochs, mi, callbacks, old_calls, (X, y, A))
         try:
             ret = est.fit(X, y, sensitive_features=A)
         except Exception as e:
@@ -349,6 +374,8 @@ def replay(cex):
                 bad.append(f"callback {k} saw steps {got}, documented {list(range(1, C + 1))}")
         if ret is not est:
             bad.append("fit did not return self")
+        if old_calls:
+            bad.append(f"the callback replaced through set_params before this fit was still invoked (steps {old_calls[:6]})")
         first_rows = steps[0][1] if steps else []
         if steps and set(y[first_rows]) == set(y) and set(A[first_rows]) == set(A):
             del LOG[:]
@@ -362,7 +389,7 @@ def replay(cex):
                     bad.append("partial_fit sequence fed different batches")
             except Exception as e:
                 bad.append(f"partial_fit sequence raised {type(e).__name__}: {e}")
-        return {"reproduced": bool(bad), "detail": "; ".join(bad)[:600] + f" | n={n} epochs={epochs} batch_size={bs} max_iter={mi} stop_at={stop} callbacks={ncb}"}
+        return {"reproduced": bool(bad), "detail": "; ".join(bad)[:600] + f" | n={n} epochs={epochs} batch_size={bs} max_iter={mi} stop_at={stop} callbacks={ncb}" + (f" history: fitted before with batch_size=1, epochs=1, another callback, warm_start={job['prior'] == 'warm'}; then set_params" if job.get("prior") else "")}
     y, kind = ENC[job["enc"]]
     n = len(y)
     X, _, A = _data(n)
